@@ -191,6 +191,11 @@ def fault_cfgs(tier):
                 single.append(Cfg(c={"window": wc, "retries": 3}, s={"window": ws, "retries": 3}, reqs=reqs, reorder=1, dupcap=1))
             if wc == ws and k in (2, 3, 5):
                 single.append(Cfg(c={"window": wc, "retries": 3}, s={"window": ws, "retries": 3}, reqs=[(rq(k) + 1, rs(k))], reorder=1, dupcap=1))
+    # the library's own default timers: the segment timeout (5 s) is longer than the APDU timeout (3 s)
+    slow = {"seg_timeout": 5000, "apdu_timeout": 3000, "retries": 3}
+    for w in (1, 2, 4):
+        for reqs in ([(rq(3), 0)], [(0, rs(3))], [(rq(3), rs(3))]):
+            single.append(Cfg(c=dict(slow, window=w), s=dict(slow, window=w), reqs=reqs, reorder=1, dupcap=1, label="default-timers"))
     single.append(Cfg(c={"retries": 3}, s={"retries": 3}, reqs=[(0, 0)]))
     single.append(Cfg(c={"retries": 1}, s={"retries": 1}, reqs=[(rq(3), rs(3))]))
     # two segment sizes above 50 for single faults
@@ -202,6 +207,40 @@ def fault_cfgs(tier):
                 multi.append((Cfg(c={"window": w, "retries": 2}, s={"window": w, "retries": 2}, reqs=reqs, reorder=2, dupcap=1), d))
     multi.append((Cfg(c={"window": 2, "retries": 1}, s={"window": 2, "retries": 1}, reqs=[(rq(3), rs(3))], reorder=2), 2))
     return single, multi
+
+
+def wrap_plan(item, deadline):
+    """Long transfer (> 256 segments): single faults at every decision point whose oldest in-flight frame carries a
+    sequence number next to the modulo-256 wrap (254, 255, 0, 1, 2 of the second lap)."""
+    from bv.stacks.appsys import AppSystem
+    from bv.refs import ssmwire
+    cfg_json = item
+    cfg = Cfg.from_json(cfg_json)
+    acc = Acc()
+    sysm = AppSystem(cfg)
+    sysm.start()
+    kids = []
+    i = 0
+    while True:
+        m = sysm.menu()
+        if not m or i > 6000:
+            break
+        fr = sysm.wire.inflight[0] if sysm.wire.inflight else None
+        near = False
+        if fr is not None and i > 40:
+            try:
+                n, a = ssmwire.parse_frame(fr.data)
+                near = a is not None and a["seq"] is not None and a["seq"] in (254, 255, 0, 1, 2) and a["type"] in (0, 3, 4)
+            except ssmwire.WireError:
+                near = False
+        if near:
+            for alt in range(1, len(m)):
+                if m[alt][1] <= 1:
+                    kids.append((cfg_json, 1, "single", [0] * i + [alt]))
+        sysm.apply(m[0][0])
+        i += 1
+    acc.info["kids"] = kids
+    return acc
 
 
 def bc_plan(item, deadline):
@@ -219,12 +258,19 @@ def bc_subtree(item, deadline):
     cfg = Cfg.from_json(cfg_json)
     acc = Acc()
 
+    long_ = (cfg.label or "").startswith("long")
+
     def run(prefix):
-        return run_execution(cfg, prefix, want_states=acc.states)
+        return run_execution(cfg, prefix, max_steps=6000 if long_ else 400, want_states=None if long_ else acc.states)
 
     def on_exec(sysm, points, prefix):
         record(acc, cfg_json, sysm, points, mode)
 
+    if long_:
+        # exactly the one fault of the root prefix, no further deviations
+        sysm, points = run(tuple(root))
+        on_exec(sysm, points, tuple(root))
+        return acc
     n, capped = explorer.explore(run, bound, on_exec, deadline, roots=(tuple(root),))
     if capped:
         acc.cap("%s: deadline inside a subtree" % mode)
@@ -271,6 +317,16 @@ def run(tier, seed, deadline):
     acc.info["C first-level deviations"] = len(multis)
     run_shards(bc_subtree, multis, deadline, into=acc)
     run_shards(bc_batch, chunks(singles, 64), deadline, into=acc)
+    # single faults next to the sequence-number wrap of a transfer of more than 256 segments
+    wraps = []
+    for w in ((1, 2, 8) if tier == "quick" else (1, 2, 3, 4, 8)):
+        for reqs in ([(rq(260), 0)], [(0, rs(260))]):
+            wraps.append(Cfg(c={"window": w, "maxsegs": 65, "retries": 3}, s={"window": w, "maxsegs": 65, "retries": 3}, reqs=reqs,
+                             label="long260-w%d" % w).to_json())
+    wplan = run_shards(wrap_plan, wraps, deadline)
+    wkids = wplan.info.pop("kids", [])
+    acc.info["B single-fault placements at the wrap of 260-segment transfers"] = len(wkids)
+    run_shards(bc_batch, chunks(wkids, 64), deadline, into=acc)
     s = run_execution(single[3], (0, 0, 1))[0]
     acc.sample({"cfg": single[3].describe(), "schedule": s.trace, "faults": s.faults,
                 "outcome": [(c[1], len(c[4]) if isinstance(c[4], bytes) else c[4]) for c in s.client.confirmations]})
@@ -280,7 +336,7 @@ def run(tier, seed, deadline):
 def replay(case):
     vclock.install()
     cfg = Cfg.from_json(case["cfg"])
-    steps = 4000 if (cfg.label or "").startswith("long") else 400
+    steps = 6000 if (cfg.label or "").startswith("long") else 400
     sysm, points = run_execution(cfg, tuple(case["choices"]), max_steps=steps)
     got, problems = judge(sysm, case["mode"])
     text = "cfg=%r\nschedule=%r\nfaults=%r\noutcomes=%r\nwire=%r\nswallowed=%r\nproblems=%r" % (
